@@ -39,6 +39,25 @@ dst = os.path.join(OUT, "time.go.txt")
 open(dst, "w").write(s)
 overlay[src] = dst
 
+# --- std timers: a stretch factor (off unless a harness sets it) ---
+# The repository runs every Lua script under context.WithTimeout(1 s): a REAL-time timer. A harness process that is
+# starved of CPU for a second in the middle of a (microsecond) script run would see that script fail - nondeterminism
+# the harness does not own. Processes that do not study the deadline itself (everything except the C16 check) stretch
+# every timer created through time.AfterFunc / time.NewTimer so that it cannot fire during a run.
+src = os.path.join(goroot, "src/time/sleep.go")
+s = open(src).read()
+for anchor in ("func NewTimer(d Duration) *Timer {\n", "func AfterFunc(d Duration, f func()) *Timer {\n"):
+    assert s.count(anchor) == 1, "timer anchor not found: " + anchor
+    s = s.replace(anchor, anchor + "\tif VerifTimerStretch > 0 && d > 0 && d < 1<<40 {\n\t\td *= Duration(VerifTimerStretch)\n\t}\n")
+s += """
+// VerifTimerStretch, when > 0, multiplies the duration of every timer created by NewTimer / AfterFunc
+// (verification harness only).
+var VerifTimerStretch int64
+"""
+dst = os.path.join(OUT, "time_sleep.go.txt")
+open(dst, "w").write(s)
+overlay[src] = dst
+
 # --- runtime map iteration order (a seam the harness decides; off unless VerifMapIterFixed is set) ---
 src = os.path.join(goroot, "src/runtime/map.go")
 s = open(src).read()
